@@ -28,7 +28,9 @@ Bases == {"9P2000.L", "9P2000.u", "9P2000", "9p2000.L", "9P2000.l", "9P2000.L ",
 Exts == {"", ".Google.0", ".Google.1", ".Google.2", ".Google.3", ".Google.4", ".Google.5", ".Google.6", ".Google.7",
          ".Google.8", ".Google.007", ".Google.00", ".Google.4294967295", ".Google.4294967296",
          ".Google.99999999999999999999", ".Google.+7", ".Google.-1", ".Google.", ".Google.7.0", ".Google.7x",
-         ".Google. 7", ".google.7", ".Google", ".Goog.7", ".Google.7.", "..Google.7", ".u"}
+         ".Google. 7", ".google.7", ".Google", ".Goog.7", ".Google.7.", "..Google.7", ".u",
+         \* the number is DECIMAL: a leading zero is not an octal marker, and no other base prefix or digit separator exists
+         ".Google.08", ".Google.018", ".Google.0x3", ".Google.0X7", ".Google.0b11", ".Google.0o3", ".Google.1_0", ".Google.0_3"}
 
 \* What the extension says: "none", [n |-> number (capped at 8: anything >= 8 acts alike)], "over" (a
 \* number that does not fit 32 bits - the statement can be read both ways), or "bad".
@@ -39,6 +41,7 @@ ExtMeaning(e) ==
     [] e = ".Google.3" -> M("num", 3) [] e = ".Google.4" -> M("num", 4) [] e = ".Google.5" -> M("num", 5)
     [] e = ".Google.6" -> M("num", 6) [] e = ".Google.7" -> M("num", 7) [] e = ".Google.8" -> M("num", 8)
     [] e = ".Google.007" -> M("num", 7) [] e = ".Google.00" -> M("num", 0)
+    [] e \in {".Google.08", ".Google.018"} -> M("num", 8)
     [] e = ".Google.4294967295" -> M("num", 8)
     [] e \in {".Google.4294967296", ".Google.99999999999999999999"} -> M("over", 0)
     [] OTHER -> M("bad", 0)
@@ -111,11 +114,13 @@ ASSUME \A ms \in {512, 4096, 8192, 65536, 1048576, Max4M} :
 (* C13: the server never exceeds the msize it announced *)
 
 \* count classes relative to the negotiated msize ms (numbers; Huge = 2^32-1)
-Counts(ms) == {0, 1, ms - 12, ms - 11, ms - 10, ms - 1, ms, ms + 1, Max4M, Max4M + 1, Huge} \ {-2, -3, -4, -5}
-ReadMsizes == {64, 128, 4096, 8192, 65536, Max4M}
+\* ms is the msize the CLIENT asks for; the server announces (and must keep to) Eff(ms)
+Eff(ms) == IF ms > Max4M THEN Max4M ELSE ms
+Counts(ms) == {0, 1, Eff(ms) - 12, Eff(ms) - 11, Eff(ms) - 10, Eff(ms) - 1, Eff(ms), Eff(ms) + 1, Max4M, Max4M + 1, Huge} \ {-2, -3, -4, -5}
+ReadMsizes == {64, 128, 4096, 8192, 65536, Max4M, Max4M + 1, 2 * Max4M}
 
 \* the most data an Rread / Rreaddir may carry under msize ms
-MaxData(ms) == ms - (Header + 4)
+MaxData(ms) == Eff(ms) - (Header + 4)
 
 \* What the server may answer to Tread/Treaddir(count) under ms: data of at most
 \* min(count, MaxData) bytes - or an Rlerror (the statement: "the data is shortened,
@@ -124,7 +129,7 @@ MaxData(ms) == ms - (Header + 4)
 FrameOK(ms, framelen) == framelen <= ms
 ASSUME \A ms \in ReadMsizes : \A c \in Counts(ms) :
           LET n == IF c = Huge THEN MaxData(ms) ELSE Min(c, MaxData(ms)) IN
-          n >= 0 => FrameOK(ms, Header + 4 + n)
+          n >= 0 => FrameOK(Eff(ms), Header + 4 + n)
 
 \* A directory reply carries whole entries only: qid[13] offset[8] type[1] name[s]; their total is
 \* within the requested count (C01) and the frame within msize (C13).  Swept over 72 consecutive
